@@ -572,6 +572,20 @@ where
             Builder::new(m, ParallelInterface::new(bus8(), RecPin(PinId::Dc), RecPin(PinId::Wr))),
             c,
         ),
+        // the same transports handed over by mutable reference (the blanket `impl Interface for &mut T`)
+        "spi_ref" => {
+            let di: &'static mut SpiInterface<'static, RecSpi, RecPin> =
+                Box::leak(Box::new(SpiInterface::new(RecSpi, RecPin(PinId::Dc), spi_buffer(c.buf))));
+            finish(Builder::new(m, di), c)
+        }
+        "p8_ref" => {
+            let di = Box::leak(Box::new(ParallelInterface::new(bus8(), RecPin(PinId::Dc), RecPin(PinId::Wr))));
+            finish(Builder::new(m, di), c)
+        }
+        "rec_ref" => {
+            let di = Box::leak(Box::new(RecInterface::<u8, 0>::new()));
+            finish(Builder::new(m, di), c)
+        }
         o => panic!("HARNESS: iface {o} not available for this model"),
     }
 }
@@ -587,12 +601,16 @@ where
             Builder::new(m, ParallelInterface::new(bus16(), RecPin(PinId::Dc), RecPin(PinId::Wr))),
             c,
         ),
+        "p16_ref" => {
+            let di = Box::leak(Box::new(ParallelInterface::new(bus16(), RecPin(PinId::Dc), RecPin(PinId::Wr))));
+            finish(Builder::new(m, di), c)
+        }
         o => panic!("HARNESS: iface {o} not available for this model"),
     }
 }
 
 fn is16(c: &Cfg) -> bool {
-    matches!(c.iface.as_str(), "p16" | "rec_p16")
+    matches!(c.iface.as_str(), "p16" | "rec_p16" | "p16_ref")
 }
 
 macro_rules! both {
@@ -857,7 +875,7 @@ pub fn run_scenario(sc: &Scenario, out: &mut dyn Write) {
     let scn = json!({"kind":kind,
         "cfg":{"model":c.model,"W":fw,"H":fh,"w":c.w.unwrap_or(fw),"h":c.h.unwrap_or(fh),
                "ox":c.ox.unwrap_or(0),"oy":c.oy.unwrap_or(0),"rot":c.rot,"mir":c.mir,"bgr":c.bgr,"inv":c.inv,
-               "refv":c.refv,"refh":c.refh,"rst":c.rst,"iface":c.iface,"buf":c.buf,
+               "refv":c.refv,"refh":c.refh,"rst":c.rst,"iface":c.iface.trim_end_matches("_ref"),"byref":c.iface.ends_with("_ref"),"buf":c.buf,
                "batch":cfg!(feature = "batch"),"profile": if cfg!(debug_assertions) {"dev"} else {"rel"},
                "colour":colour},
         "faults": faults.iter().map(|f| json!({"call":f.call,"k":f.k,"effect":f.effect})).collect::<Vec<_>>(),
